@@ -149,7 +149,32 @@ func runC05(c *Ctx) []Obligation {
 	})...)
 	out = append(out, c.twins(P, "spine.twins", "(store/iavl.PathToLeaf).isLeftmost", "(store/iavl.PathToLeaf).isRightmost", []Rename{{From: "Left", To: "Right", Swap: true}},
 		"'rightmost' is decided exactly as 'leftmost' is, on the other side's recorded hashes"))
+	out = append(out, versionedReadersUseSavedTree(c, P)...)
 	return out
+}
+
+// versionedReadersUseSavedTree (C05, C09): a read or proof "at version V" is answered from the immutable
+// tree loaded for V — the tree whose hash is V's root — on every path, the latest version included; the
+// working tree (which already carries writes of the block in progress) never answers it.
+func versionedReadersUseSavedTree(c *Ctx, P string) []Obligation {
+	imm := `\(\*store/iavl\.MutableTree\)\.GetImmutable\(tree, version\)#0`
+	var rows []Row
+	for _, r := range []struct{ fn, call, args string }{
+		{"(*store/iavl.MutableTree).GetVersioned", "Get", `key`},
+		{"(*store/iavl.MutableTree).GetVersionedWithProof", "GetWithProof", `key`},
+		{"(*store/iavl.MutableTree).GetVersionedRangeWithProof", "GetRangeWithProof", `startKey, endKey, limit`},
+	} {
+		short := r.fn[strings.LastIndex(r.fn, ".")+1:]
+		rows = append(rows,
+			Row{Prop: P, ID: "versioned." + short + ".answers-from-that-version", Fn: r.fn,
+				Target: CallTo(`\)\.(Get|GetWithProof|GetRangeWithProof|getRangeProof|Has|Iterate\w*)\(`).Except(`^\(\*store/iavl\.ImmutableTree\)\.` + r.call + `\(` + imm + `, ` + r.args + `\)$`),
+				Why:    "the only tree consulted is the immutable tree loaded for the requested version"},
+			Row{Prop: P, ID: "versioned." + short + ".loads-that-version", Fn: r.fn, Assume: []Lit{T(`^tree\.versions\[version\]$`)},
+				Barrier: []string{`^\(\*store/iavl\.MutableTree\)\.GetImmutable\(tree, version\)`}, Target: TargetAnyReturn(),
+				Why: "every answer for an existing version goes through loading that version's root"},
+		)
+	}
+	return c.Rows(rows)
 }
 
 func isIn(s string, xs ...string) bool {
